@@ -144,8 +144,43 @@ func c06SignerRoleFind(c *core.Ctx, role string) *flow.Func {
 			return n >= 2 && !assigns(g, bodyF) && !assigns(g, canonF) && !assigns(g, signedF)
 		})
 	case "hashBody":
+		// the entry of the verification-side body hashing: in the reach of Verify, a function
+		// that takes the request and assigns BodyHash (itself or through what it calls) and is
+		// called from a function that does not assign BodyHash itself
 		name = "hashBody"
-		cands = funcsByRole(c, c06sig, func(g *flow.Func, fd *ast.FuncDecl) bool { return takesRequest(g) && assigns(g, bodyF) })
+		v := fn(c, c06sig, "Signer", "Verify")
+		if v == nil {
+			return nil
+		}
+		assignsDeep := func(g *flow.Func) bool {
+			for _, h := range reach(g, 2) {
+				if assigns(h, bodyF) {
+					return true
+				}
+			}
+			return false
+		}
+		seen := map[*ast.BlockStmt]bool{}
+		for _, caller := range reach(v, 3) {
+			if assigns(caller, bodyF) {
+				continue
+			}
+			for _, call := range calls(caller.Body, true) {
+				fo, ok := caller.Callee(call).(*types.Func)
+				if !ok || fo.Pkg() != caller.Pkg.Types {
+					continue
+				}
+				fd := declOf(caller.Pkg, fo)
+				if fd == nil || seen[fd.Body] {
+					continue
+				}
+				g := c06FuncOfDecl(caller.Pkg, fd)
+				if takesRequest(g) && assignsDeep(g) && !c06MentionsField(g, g.Body, sigF) {
+					seen[fd.Body] = true
+					cands = append(cands, g)
+				}
+			}
+		}
 	case "sign":
 		name = "sign"
 		canon := c06SignerRole(c, "canon")
@@ -153,8 +188,10 @@ func c06SignerRoleFind(c *core.Ctx, role string) *flow.Func {
 			return nil
 		}
 		canonName := c06FullName(canon)
+		// the function that computes the signature: it calls canon (and either stores the
+		// result in SigningContext.Signature or returns it)
 		cands = funcsByRole(c, c06sig, func(g *flow.Func, fd *ast.FuncDecl) bool {
-			return assigns(g, sigF) && len(callsTo(g, g.Body, false, canonName)) > 0
+			return len(callsTo(g, g.Body, false, canonName)) > 0
 		})
 		if len(cands) == 0 {
 			// the call of canon is what a rule demands; without it fall back to the name
@@ -688,7 +725,24 @@ func c06Sign(c *core.Ctx) {
 		return true
 	})
 	if len(roots) == 0 {
-		c.Errorf("%s: anchor: SigningContext.sign does not assign SigningContext.Signature", rule)
+		// the signature is returned instead of stored
+		ast.Inspect(f.Body, func(n ast.Node) bool {
+			switch x := n.(type) {
+			case *ast.FuncLit:
+				return false
+			case *ast.ReturnStmt:
+				for _, r := range x.Results {
+					if tv, ok := f.Info.Types[r]; ok && tv.Type != nil && tv.Type.String() == "string" {
+						roots = append(roots, r)
+						at = x
+					}
+				}
+			}
+			return true
+		})
+	}
+	if len(roots) == 0 {
+		c.Errorf("%s: anchor: SigningContext.sign neither assigns SigningContext.Signature nor returns a string", rule)
 		return
 	}
 	parts := c06ValueClosure(f, roots)
@@ -819,24 +873,20 @@ func c06HashBody(c *core.Ctx) {
 		c.Check(ok, rule, vcons, pos(c, hcalls[0]), "Verify calls hashBody(req, true)",
 			"Verify computes the body hash in signing mode: the hash is taken from the X-Me-Content-Sha256 request header, so an attacker keeps a valid signature while replacing the body")
 	}
-	if verify == nil {
-		// no mode flag: then no header may feed BodyHash at all
-		bad := false
-		ast.Inspect(f.Body, func(x ast.Node) bool {
-			if as, ok := x.(*ast.AssignStmt); ok && len(as.Lhs) == len(as.Rhs) {
-				for i, l := range as.Lhs {
-					if c06FieldSel(f, l) == bodyF && c06HeaderRead(f, as.Rhs[i]) {
-						bad = true
-					}
-				}
-			}
-			return true
-		})
-		c.Check(!bad, rule, cons, pos(c, f.Body), "BodyHash is never assigned from a header", "the body hash is read from a request header during verification")
-		return
+	// the entry together with the same-package functions it delegates to (a shared tail,
+	// a digest helper): searched as one and interpreted in place
+	gs := reach(f, 3)
+	defs := map[types.Object]ast.Expr{}
+	for _, g := range gs {
+		for o, d := range c06DefsOf(g) {
+			defs[o] = d
+		}
 	}
-	defs := c06SingleDefs(f, f.Body)
-	verifyKey := f.VarKey(verify)
+	verifyKey := ""
+	if verify != nil {
+		verifyKey = f.VarKey(verify)
+	}
+	signing := func(st *flow.State) bool { return verifyKey != "" && st.Is(verifyKey, flow.False) }
 	// locals that hold data read from the request body: assigned from a call one of whose
 	// arguments mentions req.Body (io.ReadAll(req.Body), io.Copy(&b, req.Body) ...)
 	reqBodyF := c06StdField(c, "net/http", "Request", "Body")
@@ -845,57 +895,70 @@ func c06HashBody(c *core.Ctx) {
 		return
 	}
 	fromBody := map[types.Object]bool{}
-	readsBody := func(call *ast.CallExpr) bool {
+	readsBody := func(g *flow.Func, call *ast.CallExpr) bool {
 		for _, a := range call.Args {
-			if c06MentionsField(f, a, reqBodyF) {
+			if c06MentionsField(g, a, reqBodyF) {
 				return true
 			}
 		}
 		// a same-package helper handed the request whose results are computed from the bytes
 		// it reads from the request's Body (`digest, e := bodyDigest(req)`)
-		if fo, ok := f.Callee(call).(*types.Func); ok && fo.Pkg() == f.Pkg.Types {
+		if fo, ok := g.Callee(call).(*types.Func); ok && fo.Pkg() == g.Pkg.Types {
 			takesReq := false
 			for _, a := range call.Args {
-				if tv, ok := f.Info.Types[a]; ok && tv.Type != nil && tv.Type.String() == "*net/http.Request" {
+				if tv, ok := g.Info.Types[a]; ok && tv.Type != nil && tv.Type.String() == "*net/http.Request" {
 					takesReq = true
 				}
 			}
-			if h := c06FuncDeclOf(c, fo); takesReq && h != nil && h.Body != f.Body {
+			if h := c06FuncDeclOf(c, fo); takesReq && h != nil && h.Body != g.Body {
 				return c06ReturnsBodyBytes(h, reqBodyF)
 			}
 		}
 		return false
 	}
-	ast.Inspect(f.Body, func(x ast.Node) bool {
-		switch t := x.(type) {
-		case *ast.AssignStmt:
-			if len(t.Rhs) == 1 {
-				if call, ok := ast.Unparen(t.Rhs[0]).(*ast.CallExpr); ok && readsBody(call) {
-					if o := c06Obj(f, t.Lhs[0]); o != nil {
-						fromBody[o] = true
+	var excludeKeys, bodyNilKeys []string
+	for _, g := range gs {
+		g := g
+		ast.Inspect(g.Body, func(x ast.Node) bool {
+			switch t := x.(type) {
+			case *ast.AssignStmt:
+				if len(t.Rhs) == 1 {
+					if call, ok := ast.Unparen(t.Rhs[0]).(*ast.CallExpr); ok && readsBody(g, call) {
+						if o := c06Obj(g, t.Lhs[0]); o != nil {
+							fromBody[o] = true
+						}
 					}
 				}
-			}
-		case *ast.CallExpr:
-			if !readsBody(t) {
-				return true
-			}
-			// destinations handed to the reading call: io.Copy(&buf, req.Body)
-			for _, a := range t.Args {
-				if c06MentionsField(f, a, reqBodyF) {
-					continue
+			case *ast.CallExpr:
+				if !readsBody(g, t) {
+					return true
 				}
-				a = ast.Unparen(a)
-				if u, ok := a.(*ast.UnaryExpr); ok && u.Op == token.AND {
-					a = ast.Unparen(u.X)
+				// destinations handed to the reading call: io.Copy(&buf, req.Body)
+				for _, a := range t.Args {
+					if c06MentionsField(g, a, reqBodyF) {
+						continue
+					}
+					a = ast.Unparen(a)
+					if u, ok := a.(*ast.UnaryExpr); ok && u.Op == token.AND {
+						a = ast.Unparen(u.X)
+					}
+					if v, ok := c06Obj(g, a).(*types.Var); ok && !v.IsField() && v.Parent() != g.Pkg.Types.Scope() && !isParam(g, v) {
+						fromBody[v] = true
+					}
 				}
-				if v, ok := c06Obj(f, a).(*types.Var); ok && !v.IsField() && v.Parent() != f.Pkg.Types.Scope() && !isParam(f, v) {
-					fromBody[v] = true
+			case *ast.SelectorExpr:
+				switch c06FieldSel(g, t) {
+				case excludeF:
+					if k, neg := g.Atom(t); !neg {
+						excludeKeys = append(excludeKeys, k)
+					}
+				case reqBodyF:
+					bodyNilKeys = append(bodyNilKeys, g.NilKey(t))
 				}
 			}
-		}
-		return true
-	})
+			return true
+		})
+	}
 	for changed := true; changed; {
 		changed = false
 		for o, d := range defs {
@@ -905,22 +968,9 @@ func c06HashBody(c *core.Ctx) {
 			}
 		}
 	}
-	var excludeKeys, bodyNilKeys []string
-	ast.Inspect(f.Body, func(x ast.Node) bool {
-		if sel, ok := x.(*ast.SelectorExpr); ok {
-			switch c06FieldSel(f, sel) {
-			case excludeF:
-				if k, neg := f.Atom(sel); !neg {
-					excludeKeys = append(excludeKeys, k)
-				}
-			case reqBodyF:
-				bodyNilKeys = append(bodyNilKeys, f.NilKey(sel))
-			}
-		}
-		return true
-	})
-	res := analyze(c, f, flow.Config{NoHavoc: true,
+	res := analyze(c, f, flow.Config{NoHavoc: true, Inline: inlineSamePkg(f),
 		OnNode: func(st *flow.State, node ast.Node) {
+			c06TrackNonNil(f, st, node)
 			as, ok := node.(*ast.AssignStmt)
 			if !ok || len(as.Lhs) != len(as.Rhs) {
 				return
@@ -961,8 +1011,11 @@ func c06HashBody(c *core.Ctx) {
 				continue
 			}
 			st := ex.State
-			if c06ReturnedNilness(f, st, rs[0]) == flow.False || st.Is(verifyKey, flow.False) {
+			if c06ReturnedNilness(f, st, rs[0]) == flow.False || signing(st) {
 				continue
+			}
+			if r := ex.Ret(); r != nil && r != ex.Return && len(r.Results) == 1 && c06ReturnedNilness(f, st, r.Results[0]) == flow.False {
+				continue // `return helper(req)`: the helper's own return yields a non-nil error
 			}
 			exits++
 			okExit := st.Is("ev:bh:frombody", flow.True)
@@ -1004,7 +1057,7 @@ func c06HashBody(c *core.Ctx) {
 			}
 			n++
 			for _, st := range sts {
-				if !st.Is(verifyKey, flow.False) && bad == nil {
+				if !signing(st) && bad == nil {
 					bad, badAt = st, as
 				}
 			}
@@ -1013,7 +1066,7 @@ func c06HashBody(c *core.Ctx) {
 	if bad != nil {
 		c.Violate(rule, cons, pos(c, badAt), "the body hash can be taken from a request header while verifying: an attacker re-uses the hash (and signature) of an old body with a new body", witness(bad)...)
 	} else {
-		c.Discharge(rule, cons, pos(c, f.Body), sprintf("%d header-sourced assignment(s) of BodyHash, all only with verify == false", n))
+		c.Discharge(rule, cons, pos(c, f.Body), sprintf("%d header-sourced assignment(s) of BodyHash on the verification side, none reachable while verifying", n))
 	}
 }
 
@@ -1214,8 +1267,70 @@ func c06Verify(c *core.Ctx) {
 		}
 		return true
 	})
-	isSigField := func(e ast.Expr) bool { return isField(strip(e), sigF) }
+	signObj := c06FuncObj(signFn)
+	isSignCall := func(e ast.Expr) bool {
+		call, ok := ast.Unparen(e).(*ast.CallExpr)
+		return ok && signObj != nil && f.Callee(call) == signObj
+	}
+	// the recomputed signature: the Signature field (after sign), the result of sign, or a
+	// local holding that result
+	isSigField := func(e ast.Expr) bool {
+		e = strip(e)
+		if isField(e, sigF) || isSignCall(e) {
+			return true
+		}
+		if o := c06Obj(f, e); o != nil {
+			if d := defs[o]; d != nil && isSignCall(d) {
+				return true
+			}
+		}
+		return false
+	}
 
+	// the presented signature: a local saved from the Signature field before sign ran — or,
+	// when sign returns the signature and nothing in the reach stores that result back into
+	// the field, the field itself (`ctx.Signature == ctx.computeSignature(req)`)
+	fieldStaysPresented := true
+	for _, g := range reach(signFn, 2) {
+		ast.Inspect(g.Body, func(n ast.Node) bool {
+			if as, ok := n.(*ast.AssignStmt); ok {
+				for _, l := range as.Lhs {
+					if c06FieldSel(g, l) == sigF {
+						fieldStaysPresented = false // sign stores the signature itself
+					}
+				}
+			}
+			return true
+		})
+	}
+	inspectAll(func(n ast.Node) bool {
+		if as, ok := n.(*ast.AssignStmt); ok && len(as.Lhs) == len(as.Rhs) {
+			for i, l := range as.Lhs {
+				if c06FieldSel(f, l) == sigF && isSignCall(as.Rhs[i]) {
+					fieldStaysPresented = false
+				}
+			}
+		}
+		return true
+	})
+	isPresented := func(e ast.Expr) bool {
+		return isSaved(e) || (fieldStaysPresented && isField(strip(e), sigF))
+	}
+	isRecomputed := func(e ast.Expr) bool {
+		if fieldStaysPresented {
+			e = strip(e)
+			if isSignCall(e) {
+				return true
+			}
+			if o := c06Obj(f, e); o != nil {
+				if d := defs[o]; d != nil && isSignCall(d) {
+					return true
+				}
+			}
+			return false
+		}
+		return isSigField(e)
+	}
 	// ---- atoms
 	var eqAtoms, upper, lower, expire, enabled []c06Atom
 	var presignKeys []string
@@ -1282,14 +1397,14 @@ func c06Verify(c *core.Ctx) {
 			// hmac.Equal / bytes.Equal / subtle.ConstantTimeCompare(presented, recomputed)
 			switch calleeFull(f, x) {
 			case "crypto/hmac.Equal", "bytes.Equal":
-				if len(x.Args) == 2 && ((isSaved(x.Args[0]) && isSigField(x.Args[1])) || (isSaved(x.Args[1]) && isSigField(x.Args[0]))) {
+				if len(x.Args) == 2 && ((isPresented(x.Args[0]) && isRecomputed(x.Args[1])) || (isPresented(x.Args[1]) && isRecomputed(x.Args[0]))) {
 					eqAtoms = append(eqAtoms, c06Atom{f.CallKey(x), flow.True})
 				}
 			}
 		case *ast.BinaryExpr:
 			switch x.Op {
 			case token.EQL, token.NEQ:
-				if (isSaved(x.X) && isSigField(x.Y)) || (isSaved(x.Y) && isSigField(x.X)) {
+				if (isPresented(x.X) && isRecomputed(x.Y)) || (isPresented(x.Y) && isRecomputed(x.X)) {
 					eqAtoms = append(eqAtoms, c06Atom{f.EqKey(x.X, x.Y), flow.True})
 				}
 				// subtle.ConstantTimeCompare(a, b) == 1
@@ -1301,7 +1416,7 @@ func c06Verify(c *core.Ctx) {
 					if v, ok := c06ConstInt(f, pair[1]); !ok || v != "1" {
 						continue
 					}
-					if (isSaved(call.Args[0]) && isSigField(call.Args[1])) || (isSaved(call.Args[1]) && isSigField(call.Args[0])) {
+					if (isPresented(call.Args[0]) && isRecomputed(call.Args[1])) || (isPresented(call.Args[1]) && isRecomputed(call.Args[0])) {
 						eqAtoms = append(eqAtoms, c06Atom{f.EqKey(x.X, x.Y), flow.True})
 					}
 				}
@@ -1515,6 +1630,56 @@ func c06Verify(c *core.Ctx) {
 			}
 		}
 	}
+	// the secret handed on by a lookup helper: `secret, e := signer.lookupSecret(id)` where the
+	// helper returns the store's value at that result position on all its non-error returns
+	for round := 0; round < 2; round++ {
+		inspectAll(func(n ast.Node) bool {
+			as, ok := n.(*ast.AssignStmt)
+			if !ok || len(as.Rhs) != 1 {
+				return true
+			}
+			call, ok := ast.Unparen(as.Rhs[0]).(*ast.CallExpr)
+			if !ok {
+				return true
+			}
+			fo, ok := f.Callee(call).(*types.Func)
+			if !ok || fo.Pkg() != f.Pkg.Types {
+				return true
+			}
+			fd := declOf(f.Pkg, fo)
+			if fd == nil {
+				return true
+			}
+			for i, l := range as.Lhs {
+				carries, n := true, 0
+				ast.Inspect(fd.Body, func(y ast.Node) bool {
+					switch r := y.(type) {
+					case *ast.FuncLit:
+						return false
+					case *ast.ReturnStmt:
+						if i >= len(r.Results) {
+							carries = false
+							return true
+						}
+						if tv, ok := f.Info.Types[r.Results[i]]; ok && tv.Value != nil {
+							return true // constant ("" on the error path)
+						}
+						n++
+						if !secretObjs[c06Obj(f, r.Results[i])] {
+							carries = false
+						}
+					}
+					return true
+				})
+				if carries && n > 0 {
+					if o := c06Obj(f, l); o != nil {
+						secretObjs[o] = true
+					}
+				}
+			}
+			return true
+		})
+	}
 	res := analyze(c, f, flow.Config{
 		NoHavoc: true,
 		Inline:  inlineSamePkg(f, opaque...),
@@ -1645,7 +1810,7 @@ func c06Verify(c *core.Ctx) {
 		accepts++
 		if eqV.bad == nil {
 			switch {
-			case len(savedStmt) == 0 || len(eqAtoms) == 0:
+			case len(eqAtoms) == 0:
 				eqV = verdict{ex, "Verify never compares the signature presented by the request with the recomputed SigningContext.Signature: any signature is accepted"}
 			case !st.Is("ev:signed", flow.True):
 				eqV = verdict{ex, "Verify can accept without recomputing the signature (SigningContext.sign not called on the path)"}
